@@ -392,6 +392,15 @@ def check_heap(rep, repo: Repo, pre: str = "") -> None:
                 ]
                 rep.ev(pre + "H2", e, len(match) >= 1,
                        f"p[{show(a)}] is written but pos[...] of the element placed there is not set to {show(a)}")
+                if match:
+                    from .ir import write_summaries
+                    ws = write_summaries(repo)
+                    between = [c for c in w.events if e.seq < c.seq < match[0].seq and c.kind == "call"
+                               and c.target is not None and c.target[0] == "attr" and c.target[1] == SELF
+                               and ({"p", "pos"} & ws.get(c.target[2], set()))]
+                    rep.ev(pre + "H2-atomic", e, not between,
+                           "" if not between else f"{between[0].text()} runs between the store into p[] and the "
+                           "matching pos[] update: the sift works on (and is then overwritten by) a stale position map")
     if n_h2 < 6:
         raise AnalysisError(f"Heap: only {n_h2} stores to p[] found (expected at least 6)")
 
